@@ -59,7 +59,7 @@ type codec struct {
 	dec func(v any, data []byte) (any, bool)
 	// payload renders the Coq c27_payload term: the generated value (hasV), the
 	// bytes handed to dec and what dec returned.
-	payload func(v any, hasV bool, data []byte, res any, resOK bool) string
+	payload func(v any, hasV bool, data []byte, res any, resOK, same bool) string
 	// rawHint produces a plausible frame start for the raw mode (may be nil).
 	rawHint func(r *rand.Rand) []byte
 }
@@ -335,7 +335,7 @@ func run(in input) vh.Result {
 	// a decoded value identical to the generated one is not printed a second time
 	same := mode == 0 && encOK && resOK && reflect.DeepEqual(v, res)
 	coq := vh.App("C27Case", vh.N(uint64(mode)), bigHex(data), vh.B(encOK),
-		c.payload(v, hasV, data, res, resOK && !same), vh.B(same), vh.NList(truncOK), vh.N(alloc), vh.N(allocTr))
+		c.payload(v, hasV, data, res, resOK, same), vh.B(same), vh.NList(truncOK), vh.N(alloc), vh.N(allocTr))
 	return vh.Result{
 		Coq: coq,
 		Obs: map[string]any{"mode": mode, "len": len(data), "enc_ok": encOK, "dec_ok": resOK,
@@ -370,18 +370,59 @@ func main() {
 
 // ---- shared printers -----------------------------------------------------------------
 
-// bigHex renders long byte strings as (hxc "..." (hxc "..." [])): one string literal of
-// several hundred kilobytes is a term too deep for coqc's stack.
+// bigHex renders byte strings for the case file: (hx "..") when short and dense,
+// otherwise a chain (hxc "chunk" (hz 96 (hxc "chunk" []))) — zero runs (unset
+// digests) by length, hex in chunks of at most 1 KiB (one string literal of
+// several hundred kilobytes is a term too deep for coqc's stack).
 func bigHex(b []byte) string {
 	const chunk = 1024
-	if len(b) <= chunk {
+	const minRun = 24
+	type seg struct {
+		zero bool
+		a, b int
+	}
+	var segs []seg
+	i := 0
+	start := 0
+	for i < len(b) {
+		if b[i] == 0 {
+			j := i
+			for j < len(b) && b[j] == 0 {
+				j++
+			}
+			if j-i >= minRun {
+				if i > start {
+					segs = append(segs, seg{false, start, i})
+				}
+				segs = append(segs, seg{true, i, j})
+				start = j
+			}
+			i = j
+			continue
+		}
+		i++
+	}
+	if start < len(b) {
+		segs = append(segs, seg{false, start, len(b)})
+	}
+	if len(segs) == 0 {
+		return "[]"
+	}
+	if len(segs) == 1 && !segs[0].zero && len(b) <= chunk {
 		return vh.Hex(b)
 	}
 	var sb strings.Builder
 	n := 0
-	for i := 0; i < len(b); i += chunk {
-		sb.WriteString(`(hxc "` + hex.EncodeToString(b[i:min(len(b), i+chunk)]) + `" `)
-		n++
+	for _, sg := range segs {
+		if sg.zero {
+			fmt.Fprintf(&sb, "(hz %d ", sg.b-sg.a)
+			n++
+			continue
+		}
+		for k := sg.a; k < sg.b; k += chunk {
+			sb.WriteString(`(hxc "` + hex.EncodeToString(b[k:min(sg.b, k+chunk)]) + `" `)
+			n++
+		}
 	}
 	sb.WriteString("[]" + strings.Repeat(")", n))
 	return sb.String()
